@@ -208,6 +208,14 @@ func (r *RefStore) SRem(conn *redis.Conn, key string, members []string) (*redis.
 
 func (r *RefStore) ZAdd(conn *redis.Conn, key string, members []*redis.ZSetMember, opt redis.ZAddOption) (*redis.Message, error) {
 	args := []string{"ZADD", key}
+	for _, o := range []struct {
+		on   bool
+		word string
+	}{{opt.NX, "NX"}, {opt.XX, "XX"}, {opt.GT, "GT"}, {opt.LT, "LT"}, {opt.CH, "CH"}, {opt.INCR, "INCR"}} {
+		if o.on {
+			args = append(args, o.word)
+		}
+	}
 	for _, m := range members {
 		args = append(args, model.FmtScore(m.Score), m.Member)
 	}
